@@ -64,6 +64,7 @@ type Backend struct {
 	crashed     bool
 	crashSnap   map[string][]byte
 	impure      int
+	impureOps   []string
 	LogReads    bool
 	pointsOff   bool
 }
@@ -194,6 +195,12 @@ func (b *Backend) Impure() int {
 	return b.impure
 }
 
+func (b *Backend) ImpureOps() []string {
+	b.mu.Lock()
+	defer b.mu.Unlock()
+	return append([]string{}, b.impureOps...)
+}
+
 // PointsOff disables scheduling points (setup phases inside an exploration).
 func (b *Backend) PointsOff(off bool) {
 	b.mu.Lock()
@@ -267,6 +274,9 @@ func (b *Backend) before(kind, key string, inTx bool) (int, error) {
 		}
 	} else if sched.Active() != nil {
 		b.impure++
+		if len(b.impureOps) < 64 {
+			b.impureOps = append(b.impureOps, op.String())
+		}
 	}
 	var err error
 	if b.crashed {
